@@ -58,6 +58,9 @@ structure Mdl where
       from scratch in that case (repaired form, fixes/C19-3), or indexes unconditionally (as first read: on a planner that
       has not been called yet the vector is empty — undefined behaviour, although the documentation promises a restart) -/
   advGuard : Bool := false
+  /-- rPOMCP only: a visit that ends at a node as a leaf records the datapoint it passes upwards in the node's value
+      (`V += (datapoint - V) / N`, repaired form, fixes/C19-4) or leaves `V` alone (as first read) -/
+  rLeafV : Bool := false
   /-- rPOMCP only: `UseEntropy` (negative-entropy knowledge measure) instead of max-of-belief -/
   entropy : Bool := false
   /-- rPOMCP with entropy only: `p * log(p)` for `p = c / n` as the double the code computes (`log` is not
@@ -369,9 +372,15 @@ def rdown (m : Mdl) (t : RTree) (p : Path) (st : Step) : RTree × Bool :=
   let t := if newNode then { t with ex := upd t.ex child true, nodes := t.nodes ++ [child] } else t
   (t.updBK m child st.s1, newNode)
 
-/-- a visit that ends at the child as a leaf: `ot->second.N += 1` -/
-def rleaf (t : RTree) (child : Path) : RTree :=
-  { t with nN := upd t.nN child (t.nN child + 1), stops := upd t.stops child (t.stops child + 1) }
+/-- a visit that ends at the child as a leaf: `ot->second.N += 1`; the datapoint `imm` it passes upwards is 0, or the
+    knowledge measure at the last level.  `recV` (repaired form, fixes/C19-4): the leaf's value becomes the mean of the
+    datapoints it has passed upwards, `V += (imm - V) / N`; in the source as first read `V` is left alone. -/
+def rleaf (t : RTree) (child : Path) (recV : Bool) (imm : Rat) : RTree :=
+  -- (the new value is computed first and stored by an unconditional `upd`: an `if` between two *functions* would be
+  --  eta-expanded by the compiler and re-evaluate the mean on every lookup)
+  let nv : Rat := if recV then t.v child + (imm - t.v child) / ((t.nN child + 1 : Nat) : Rat) else t.v child
+  { t with nN := upd t.nN child (t.nN child + 1), stops := upd t.stops child (t.stops child + 1),
+           v := upd t.v child nv }
 
 /-- the mean / max bookkeeping of a belief node below the root after one of its actions was updated:
     new `actionsV`, new `bestAction`, new comparison margin.  (`b.N == k_`: `actionsV = HUGE_VAL; bestAction = a`, then
@@ -417,7 +426,8 @@ def rsim (m : Mdl) (H k : Nat) : Nat → RTree → Path → Nat → Nat → List
           | none => none
           | some t2 => rsim m H k fuel t2 child st.s1 (depth + 1) log
         else
-          some (rleaf d.1 child, if depth + 1 < H then 0 else (rleaf d.1 child).km child, log)
+          let imm : Rat := if depth + 1 < H then 0 else d.1.km child
+          some (rleaf d.1 child m.rLeafV imm, imm, log)
       match r with
       | none => none
       | some (t3, imm, log') => some ((rup m k t3 p st.a depth imm).1, (rup m k t3 p st.a depth imm).2, log')
